@@ -28,6 +28,14 @@ CHECKS = {
             'Static proof-by-schema: under -stab the three stability families handed to PuLP are extracted as forall-families over symbolic instance data and shown equal to the reference encoding, which is itself shown equivalent to the blocking-pair definition on all feasible valuations of 7 predicates; alpha/beta Binary; families unconditional, before any solve, absent without -stab. Covers every two-sided instance at once. A different-but-equivalent encoding is outside the fragment (exit 2), not a violation.',
             'Trusted: ast; A1, A3, A6; rows of pairs sorted by dense ranks from 1 (discharged by C10/C13); row-membership facts (C01.R4).',
             'DESIGN.md section 5 C05 + Appendix A'),
+    'C10': ('tie-aware tokeniser as a finite transducer explored against the documented grammar; abstract interpretation of the file reader per (numagents, twopl) with linear interval derivation of every section from the branch guards; field->attribute tables; guard discipline of rank_lecturer readers',
+            'Static: the tokeniser\'s loop body is abstracted to a transition table and its product with the grammar (OPEN PLAIN* CLOSE | PLAIN)* is explored completely (dense ranks from 1 for every list length and tie grouping); for -na 2/3 with and without -twopl the reader\'s branch conditions are turned into integer intervals over the header counts and shown to be exactly the three sections, ids = index - (start-1), each quota/target/lecturer field comes from the documented column, preference lists from the documented slice, the 2-agent embedding gives hospital j its own lecturer j with target = upper quota, rank_lecturer is set for every pair exactly under -twopl, and every cost reader of rank_lecturer is presence-guarded.',
+            'Behaviour on files outside the documented grammar is not decided. Trusted: ast; str.split / replace semantics as modelled; C16.R4 for the stability-only readers.',
+            'DESIGN.md section 5 C10'),
+    'C13': ('writer and reader loop bodies abstracted to finite transition tables by a finite evaluator; complete exploration of the product automaton',
+            'Static, exhaustive on a finite automaton: the writer table over (in_tie, tie bit, last) and the reader table over (in_tie, decoration) are extracted from the two loop bodies and their product is explored from the initial state over all input sequences; at every reachable step the emitted parentheses are balanced, non-nested, maximal runs of >= 2, the last decision has no effect, and the reader advances the rank by one exactly when the writer did not tie the previous entry with this one, starting at 1. Because the product is finite (3 reachable states, 12 transitions today) this holds for EVERY list length and EVERY tie vector, not up to a bound. Also: one indicator per element, both sides and both file kinds use the same writer/reader.',
+            'Trusted: ast; number tokens are digit strings; tokens are whitespace separated.',
+            'DESIGN.md section 5 C13'),
     'C14': ('solve/check typestate over the inlined, specialised effect tree (loops to fixpoint, value-sensitive status tests); edge-dominance of every output statement by the Timeout and Optimal gates on the CFG of get_results; gate conditions decided by truth table over their atoms',
             'Part: decides the structural clauses that are necessary for the property - no solve is issued while the previous one is unchecked or after a non-Optimal status (every criterion, arities, sequences), run() returns the latest status unchanged into pulp_status, and every statement that can emit the matching, a statistic or stability_correct is reachable only past the Timeout gate (limit set and (Not Solved or total_s > limit)) and through the Optimal edge of the status gate, with constants equal to the PuLP LpStatus strings read from the library source. Fault injection can only sample solve positions; the typestate covers all of them, including per-rank solves.',
             'NOT decided: that a time-limited stop always makes total_s exceed the limit (wall clock) - the only guard against an incumbent reported Optimal. Trusted: ast, PuLP constants.py source, A3.',
